@@ -12,22 +12,36 @@ cd "$(dirname "$0")/../harness" || exit 2
 EV="${VERIF_EVIDENCE_OUT:-/verif/evidence/$ID.json}"
 NS=$([ "$TIER" = "thorough" ] && echo 5 || echo 3)          # number of sizes
 D=$(mktemp -d /dev/shm/lvh-ir.XXXXXX)
-rc=0; status="ran"; worst=0; detail="[]"
+rc=0; status="ran"; worst=0; worst_total=0; detail="[]"
 if ! command -v valgrind >/dev/null 2>&1; then
   echo "INCONCLUSIVE property=$ID reason=instruction-count-leg: valgrind not available"; status="valgrind-missing"
 else
-  for k in $(seq 0 $((2*NS-1))); do
+  SHAPES=$([ "$ID" = "C10" ] && echo "0 1 2 3" || echo "0 1 2 3 4")   # input shapes, see the ir-scale generators
+  for sh in $SHAPES; do for j in $(seq 0 $((2*NS-1))); do
+    k=$((100*sh+j))
     ( valgrind --tool=cachegrind --cache-sim=no --cachegrind-out-file=/dev/null ./target/verif/lvh one "$ID" --tier quick --seed 1 --gen ir-scale --n $k --out "$D/r$k.json" >"$D/v$k.log" 2>&1 ) &
-  done
-  wait
-  for path in 0 1; do
-    prev=""; prevd=""; name=$([ $path = 0 ] && echo accepted || echo rejected)
+  done; wait; done
+  for sh in $SHAPES; do for path in 0 1; do
+    prev=""; prevd=""; name="shape$sh-$([ $path = 0 ] && echo accepted || echo rejected)"
     for s in $(seq 0 $((NS-1))); do
-      k=$((2*s+path))
+      k=$((100*sh+2*s+path))
       ir=$(grep "I *refs:" "$D/v$k.log" | tail -1 | sed 's/.*refs: *//; s/,//g')
       okc=$(jq -r '(.counters.ir_scale_accepted // 0) + (.counters.ir_scale_rejected // 0)' "$D/r$k.json" 2>/dev/null || echo 0)
+      crashed=$(grep -c "overflowed its stack\|Process terminating with default action of signal" "$D/v$k.log" 2>/dev/null || true)
+      if [ "${crashed:-0}" != "0" ]; then
+        mkdir -p /verif/replay; { echo "property=$ID instruction-count leg: the reader crashed on ir-scale case $k ($name, size index $s)"; tail -20 "$D/v$k.log"; } > /verif/replay/$ID-ircrash.log
+        echo "VIOLATION property=$ID replay=/verif/replay/$ID-ircrash.log"; rc=1; prev=""; prevd=""; continue
+      fi
       if [ -z "$ir" ] || [ "$okc" != "1" ]; then echo "INCONCLUSIVE property=$ID reason=instruction-count-leg: case $k did not complete"; status="incomplete"; prev=""; prevd=""; continue; fi
       if [ -n "$prev" ]; then
+        # criterion 2: the total itself. With a non-negative constant part, linear cost can at most double when the input doubles.
+        tr=$(echo "scale=3; $ir / $prev" | bc)
+        [ "$(echo "$tr > $worst_total" | bc)" = 1 ] && worst_total=$tr
+        if [ "$(echo "$tr >= 2.5" | bc)" = 1 ]; then
+          mkdir -p /verif/replay
+          { echo "property=$ID instruction-count leg: cost more than doubles when the input doubles"; echo "path=$name size_index=$s total_ratio=$tr (at most 2 for linear cost; limit 2.5)"; grep -H "I *refs:" "$D"/v*.log; } > /verif/replay/$ID-ircount.log
+          echo "VIOLATION property=$ID replay=/verif/replay/$ID-ircount.log"; rc=1
+        fi
         d=$((ir-prev))
         if [ -n "$prevd" ] && [ "$prevd" -gt 0 ]; then
           ratio=$(echo "scale=3; $d / $prevd" | bc)
@@ -43,11 +57,11 @@ else
       fi
       prev=$ir
     done
-  done
-  echo "[ir-count] $ID sizes=$NS worst_increment_ratio=$worst (2 = linear, limit 3)"
+  done; done
+  echo "[ir-count] $ID sizes=$NS worst_increment_ratio=$worst (2 = linear, limit 3) worst_total_ratio=$worst_total (<= 2 for linear, limit 2.5)"
 fi
 if [ -f "$EV" ] && [ "$EV" != "/dev/null" ]; then
-  tmp=$(mktemp); jq --arg st "$status" --arg w "$worst" --argjson d "$detail" '.coverage.sanitizer_legs = ((.coverage.sanitizer_legs // {}) + {instruction_count: {status:$st, tool:"valgrind --tool=cachegrind --cache-sim=no", worst_increment_ratio:($w|tonumber), limit:3, measurements:$d}})' "$EV" > "$tmp" && mv "$tmp" "$EV"
+  tmp=$(mktemp); jq --arg st "$status" --arg w "$worst" --arg wt "$worst_total" --argjson d "$detail" '.coverage.sanitizer_legs = ((.coverage.sanitizer_legs // {}) + {instruction_count: {status:$st, tool:"valgrind --tool=cachegrind --cache-sim=no", worst_increment_ratio:($w|tonumber), limit:3, worst_total_ratio:($wt|tonumber), total_limit:2.5, measurements:$d}})' "$EV" > "$tmp" && mv "$tmp" "$EV"
 fi
 rm -rf "$D"
 exit $rc
